@@ -27,6 +27,8 @@ class SW:
     def __init__(self, prog: Program, n_t=3, labels=(), shift=None, tag="", grid=None):
         self.prog, self.n_t, self.labels, self.tag = prog, n_t, tuple(labels), tag
         self.it = SymInterp(prog)
+        for nm, (sym, expr) in gl_tables(prog).items():        # the interpreter sees the same named constants as the oracle
+            self.it._const_cache[id(expr)] = (expr, {n: list(v) for n, v in sym.items()})
         sh = rat(0) if shift is None else shift
         self.prm_values = None      # {"A": number, "B": number}: concrete values for parameters given as a number
         if grid == "unit":              # the concrete grid 0, 1, 2, ... (ages are numbers: a fixed lifetime's indicator is exactly 0 or 1)
@@ -150,21 +152,41 @@ class SW:
         raise AnalysisError(cls_name)
 
 
-def quad_rule(prog, n_pts, inflow_at):
-    """nodes/weights on [0,1] as the property documents them, from the tables in gauss_lobatto.py (read from the AST)"""
-    if n_pts <= 1:
-        return [{"start": Fraction(0), "middle": Fraction(1, 2), "end": Fraction(1)}[inflow_at]], [Fraction(1)]
+def gl_tables(prog):
+    """the Gauss-Lobatto tables of gauss_lobatto.py (read from the AST).  Entries that are not exactly -1, 0, 1 or a small
+    fraction are irrational numbers given as decimals: they enter the symbolic evaluation as NAMED constants (their values are
+    the business of the exact table check C08.quadrature-table), so that every formula built from them is compared as an exact
+    identity and not through floating-point rounding of one particular order of operations."""
     import ast
     mi = prog.modules.get("gauss_lobatto.py")
     if mi is None:
         raise AnalysisError("module gauss_lobatto.py not found")
-    tabs = {}
+    out = {}
     for nm in ("gl_nodes", "gl_weights"):
         if nm not in mi.consts:
             raise AnalysisError(f"table {nm} not found in gauss_lobatto.py")
-        tabs[nm] = ast.literal_eval(mi.consts[nm])
-    nodes = [rat((x + 1) / 2) for x in tabs["gl_nodes"][n_pts]]
-    weights = [rat(w / 2) for w in tabs["gl_weights"][n_pts]]
+        tab = ast.literal_eval(mi.consts[nm])
+        sym = {}
+        for n, vals in tab.items():
+            row = []
+            for k, v in enumerate(vals):
+                fr = Fraction(v).limit_denominator(64)
+                if abs(float(fr) - v) < 1e-15:
+                    row.append(rat(fr))                 # -1, 0, 1, 1/3, 4/3, 1/6, 5/6 ...: exact
+                else:
+                    row.append(Rat.sym(f"{'glx' if nm == 'gl_nodes' else 'glw'}{n}_{k}", "pos" if v > 0 else "neg"))
+            sym[n] = row
+        out[nm] = (sym, mi.consts[nm])
+    return out
+
+
+def quad_rule(prog, n_pts, inflow_at):
+    """nodes/weights on [0,1] as the property documents them"""
+    if n_pts <= 1:
+        return [{"start": Fraction(0), "middle": Fraction(1, 2), "end": Fraction(1)}[inflow_at]], [Fraction(1)]
+    tabs = gl_tables(prog)
+    nodes = [(x + 1) / 2 for x in tabs["gl_nodes"][0][n_pts]]
+    weights = [w / 2 for w in tabs["gl_weights"][0][n_pts]]
     return nodes, weights
 
 
